@@ -109,8 +109,8 @@ func c14BombCount(zone string, val uint64, m *typegen.Mark) uint64 {
 	switch zone {
 	case "panic": // n*size > 2^48 (maxAlloc) or n > maxInt: runtime.makeslice panics (recoverable)
 		return []uint64{1 << 49, 1 << 56, 1 << 63, ^uint64(0), 1<<63 - 1}[val%5]
-	case "measurable": // 8..40 MiB requested for an input of a few hundred bytes
-		target := uint64(8<<20) + (val%5)*(8<<20)
+	case "measurable": // 2..6 MiB requested for an input of a few hundred bytes (bound: 1 MiB + 64 x input)
+		target := uint64(2<<20) + (val%5)*(1<<20)
 		return target/es + 1
 	case "fatal": // between the ulimit and maxAlloc: the runtime throws "out of memory" (not recoverable)
 		return []uint64{(4 << 30) / es, (1 << 40) / es}[val%2] + 1
@@ -147,7 +147,7 @@ func c14Verdict(c *kit.Case, cdc *cdcCodec, s []byte, seg types.HashSegmentMap, 
 	if id, d := c14Known(cdc, s, seg, obs, msg); id != "" {
 		c.Known(id, d+" | "+detail)
 	}
-	for _, lax := range []string{"", "impl+strictblob", "workitem+strictblob", "storage+strictblob", "operand+strictblob"} {
+	for _, lax := range []string{"", "impl+alloc", "workitem+alloc", "storage+alloc", "operand+alloc"} {
 		n, rj := cdcRefDecode(cdc, s, seg, lax)
 		detail += fmt.Sprintf(" | reference[%s]: consumed %d, %s", lax, n, rj.String())
 	}
@@ -180,7 +180,7 @@ func c14Known(cdc *cdcCodec, s []byte, seg types.HashSegmentMap, obs, msg string
 		return "KF-C14-1", "length prefix larger than the remaining input reaches make(): " + rej.String()
 	}
 	if isMake {
-		for _, lax := range []string{"impl+strictblob", "workitem+strictblob", "storage+strictblob", "operand+strictblob"} {
+		for _, lax := range []string{"impl+alloc", "workitem+alloc", "storage+alloc", "operand+alloc"} {
 			if _, lr := cdcRefDecode(cdc, s, seg, lax); lr != nil && lr.Reason == typegen.RCountTooBig && name != "Ancestry" && !strings.HasSuffix(lr.Path, ".Ancestry") {
 				return "KF-C14-1", "length prefix larger than the remaining input reaches make(), at the position reached under the implementation's own (tolerant) grammar, mode '" + lax + "': " + lr.String()
 			}
@@ -252,9 +252,9 @@ func c14GenFrame(rt *rapid.T) c14Input {
 		case 0:
 			l = 1
 		case 1, 2, 3:
-			l = uint32(8<<20) + uint32(rapid.IntRange(0, 4).Draw(rt, "lm"))*(8<<20)
+			l = uint32(2<<20) + uint32(rapid.IntRange(0, 4).Draw(rt, "lm"))*(1<<20)
 		case 4:
-			l = uint32(rapid.IntRange(1<<20, 4<<20).Draw(rt, "lr"))
+			l = uint32(rapid.IntRange(1<<19, 2<<20).Draw(rt, "lr"))
 		default:
 			l = uint32(rapid.IntRange(1, 64).Draw(rt, "ls"))
 		}
@@ -369,10 +369,10 @@ func TestVerif_C14(t *testing.T) {
 	c14Worker.Single = s.Replaying()
 	c14Worker.Timeout = 40 * time.Second
 	defer c14Worker.stop()
-	kit.Run(s, "length_bombs", kit.N{Quick: 14000, Thorough: 300000}, c14GenBomb, c14BombCheck)
-	kit.Run(s, "hostile_frames", kit.N{Quick: 3000, Thorough: 60000}, c14GenFrame, c14RawCheck)
-	kit.Run(s, "arbitrary_and_damaged_bytes", kit.N{Quick: 10000, Thorough: 300000}, c14GenRandom, c14RawCheck)
-	kit.Run(s, "valid_encodings_within_bound", kit.N{Quick: 3000, Thorough: 60000}, c14GenValid, c14ValidCheck)
+	kit.Run(s, "length_bombs", kit.N{Quick: 10000, Thorough: 80000}, c14GenBomb, c14BombCheck)
+	kit.Run(s, "hostile_frames", kit.N{Quick: 2000, Thorough: 20000}, c14GenFrame, c14RawCheck)
+	kit.Run(s, "arbitrary_and_damaged_bytes", kit.N{Quick: 8000, Thorough: 80000}, c14GenRandom, c14RawCheck)
+	kit.Run(s, "valid_encodings_within_bound", kit.N{Quick: 2000, Thorough: 20000}, c14GenValid, c14ValidCheck)
 	s.Note("decode worker restarts in this shard: %d; native `go test -fuzz` targets are not run (no driver support)", c14Worker.Deaths)
 	_ = reflect.TypeOf
 }
